@@ -260,6 +260,10 @@ def run(repo, chk):
     c04._tracker(repo, Remap(chk, {'C04.A1': tracker_only}))
     # ... and every slot reservation reports the frame size it has just reached (not the one before it)
     c04._reserve_slots(repo, Remap(chk, {'C04.A1': 'C18.D5'}), gf)
+    # ... and the guard of a run-time sized array keeps free exactly what the frame still needs, so that a run which fits keeps
+    # fitting (and computing the same) at every larger stack size (shared with C04.A14)
+    c04.initialiser_reserve(repo, chk, 'C18.D5')
+    c04._deferred(repo, Remap(chk, {'C04.A13': 'C18.D5'}))
     for cls, mnem in (('Hgeu', 'hgeu'), ('Hleu', 'hleu'), ('Hltu', 'hltu'), ('Hgtu', 'hgtu')):
         chk.expect(gf.asm_code.get(cls) == mnem, 'C18.D2', f'asm.{cls}.code', f'{gf.asm_code.get(cls)!r}: stack guards must be emitted as '
                    'unsigned comparisons, otherwise a run that fits a stack of S words fails at a larger S', 'hidc/codegen/asm.py')
